@@ -463,6 +463,7 @@ func childIdlFuzz(a []string) string {
 func init() {
 	executors["idl.type"] = execIdlType
 	executors["idl.actions"] = execIdlActions
+	executors["idl.pkg"] = execIdlPkg
 	executors["idl.rt"] = func(a []string) string { return "replay-needs-the-generator" }
 	children["idl.fuzz"] = childIdlFuzz
 	executors["idl.fuzz"] = func(a []string) string {
@@ -541,6 +542,19 @@ func runC18(r *Rand, tier string, o *Out) {
 		out := o.Do("P", "idl.actions "+hx([]byte(c18ActionLines(r, o))), true)
 		o.Count("actions-answer:" + strings.SplitN(out, " ", 2)[0])
 	}
+	// whole packages: blocks in any order, structs that refer to each other, to themselves, to nothing
+	for i := 0; i < n/2; i++ {
+		out := o.Do("P", "idl.pkg "+hx([]byte(c18PkgText(r, o))), true)
+		o.Count("package-answer:" + strings.SplitN(out, " ", 2)[0])
+		if strings.Contains(out, "recursive type definition") {
+			o.Count("package:recursive-definition")
+		}
+		if strings.Contains(out, "not found in scope") {
+			o.Count("package:unknown-reference")
+		}
+	}
+	// the witness of the repaired defect: a struct that has itself as a member
+	o.Do("P", "idl.pkg "+hx([]byte("package p\nstruct A\n\ta: A\nend\ninterface I\n\tfn f(x: A)\nend\n")), true)
 	// whole meta-objects
 	m := 150
 	if tier == "thorough" {
